@@ -11,6 +11,7 @@ for d in sorted(glob.glob(os.path.join(V, 'seeded', '*'))):
     conf = m.get('confirmed', {})
     ok = all(conf.get(k) for k in ('demo_passes_without_change', 'demo_fails_with_change', 'existing_suite_passes_with_change'))
     res = m.get('check_results', {})
+    first = m.get('first_check_results', res)
     summary = m.get('summary') or ''
     if not summary:
         txt = m.get('what_it_needs', '')
@@ -20,13 +21,20 @@ for d in sorted(glob.glob(os.path.join(V, 'seeded', '*'))):
             if len(line) > 20:
                 summary = line[:140]
                 break
-    rows.append((m['id'], m['property'], 'yes' if ok else 'NO', '; '.join('%s: %s' % (k, v) for k, v in sorted(res.items())), summary.replace('|', '/')))
-out = ['| id | breaks | confirmed | result of ./check (patch applied to /repo) | change |', '|----|--------|-----------|------|--------|']
+    fmt = lambda r: '; '.join('%s: %s' % (k, v) for k, v in sorted(r.items()))
+    rows.append((m['id'], m['property'], 'yes' if ok else 'NO', fmt(first), fmt(res), summary.replace('|', '/')))
+out = ['| id | breaks | confirmed | ./check when the change was written | ./check now | change |', '|----|--------|-----------|------|------|--------|']
 for r in rows:
-    out.append('| %s | %s | %s | %s | %s |' % r)
-caught = sum(1 for r in rows if 'VIOLATION' in r[3] and r[2] == 'yes')
+    out.append('| %s | %s | %s | %s | %s | %s |' % r)
+conf = [r for r in rows if r[2] == 'yes']
+r1 = [r for r in conf if not r[0].endswith('-r2')]
+r2 = [r for r in conf if r[0].endswith('-r2')]
 out.append('')
-out.append('%d confirmed changes, %d reported as VIOLATION by the check of the property they were written against.' % (sum(1 for r in rows if r[2] == 'yes'), caught))
+for name, rs in (('round 1 (plausible maintainer mistakes)', r1), ('round 2 (deliberately subtle, written knowing that round 1 was caught)', r2)):
+    if rs:
+        out.append('%s: %d confirmed changes; %d reported as VIOLATION at first evaluation (%d of them with a failing input); %d reported now (%d with a failing input).' % (
+            name, len(rs), sum('VIOLATION' in r[3] for r in rs), sum('VIOLATION' in r[3] and 'no-failing' not in r[3] for r in rs),
+            sum('VIOLATION' in r[4] for r in rs), sum('VIOLATION' in r[4] and 'no-failing' not in r[4] for r in rs)))
 p = os.path.join(V, 'DESIGN.md')
 s = open(p).read()
 s = re.sub(r'<!-- SEEDED-TABLE-BEGIN -->.*<!-- SEEDED-TABLE-END -->', '<!-- SEEDED-TABLE-BEGIN -->\n' + '\n'.join(out) + '\n<!-- SEEDED-TABLE-END -->', s, flags=re.S)
